@@ -32,6 +32,11 @@ def gen(ctx, k):
         if 'outputs' in n['config'] and oj is not None:
             n['config']['outputs_jpg'] = oj
     scn['outputs_jpg'] = oj
+    if oj is False:
+        # raw transport demanded end to end; a relay may still look at the encoded form of what it forwards
+        for n in scn['nodes']:
+            if n['role'] == 'relay' and rng.random() < 0.5:
+                n['beh']['touch_jpg'] = True
     return scn
 
 
@@ -56,7 +61,7 @@ def judge(w, scn, res):
     topo = scenarios.Topo(scn)
     bad = monitors.check_order(w, topo, res)
     # subscription clause (reuses the set mapper of C01, keeps only that mechanism)
-    bad += [b for b in monitors.check_sets(w, topo, common.Result()) if b[0] in ('unsubscribed-topic', 'unmapped-frame')]
+    bad += [b for b in monitors.check_sets(w, topo, common.Result()) if b[0] in ('unsubscribed-topic', 'unmapped-frame', 'wrong-topic-name')]
     per_cons = {}
     for e in w.process_log():
         if e['ins']:
@@ -116,7 +121,7 @@ def run_shard(ctx):
     return res
 
 
-RELEVANT = lambda mech: mech in ('duplicate', 'reorder', 'ephemeral-reorder', 'content-altered', 'unsubscribed-topic', 'unmapped-frame')
+RELEVANT = lambda mech: mech in ('duplicate', 'reorder', 'ephemeral-reorder', 'content-altered', 'unsubscribed-topic', 'unmapped-frame', 'wrong-topic-name')
 
 
 def realnet_pass(ctx, res):
@@ -135,6 +140,7 @@ def realnet_pass(ctx, res):
                     n_['config']['outputs_jpg'] = False
                 elif 'outputs' in n_['config']:
                     n_['config']['outputs_jpg'] = False
+            scn['outputs_jpg'] = False
             res.count('realnet_reused_buffer_scenarios')
         try:
             w = orch.run_real(scn, max_wall_s=12 if scn.get('faults') else 40)
